@@ -42,6 +42,10 @@ class Exec:
         c = z3.simplify(c)
         if z3.is_true(c): return kt(st)
         if z3.is_false(c): return kf(st)
+        nc = z3.simplify(z3.Not(c))
+        for p in st.pc:                      # cheap pruning of syntactically decided branches
+            if z3.eq(p, c): return kt(st)
+            if z3.eq(p, nc): return kf(st)
         self.paths += 1
         if self.paths > MAX_PATHS:
             raise Unsupported("path explosion")
